@@ -36,10 +36,19 @@ IR_RUNS.update({
                       ("MC", "hier_walk", 12, 40)],
             "thorough": [("MC", "hier11", 4), ("MC", "hier11", 12, 600), ("MC", "hier_edit", 2),
                          ("MC", "hier_edit", 10, 400), ("MC", "hier_walk", 16, 1500)]},
+    "C08": {"quick": [("MC", "xf", 3), ("MC", "xf_port", 4), ("MC", "xf", 12, 40)],
+            "thorough": [("MC", "xf", 5), ("MC", "xf_port", 11), ("MC", "xf", 14, 1500)]},
+    "C09": {"quick": [("MC", "xf", 2), ("MC", "xf_port", 6), ("MC", "xf", 12, 30)],
+            "thorough": [("MC", "xf", 5), ("MC", "xf_port", 11), ("MC", "xf", 14, 1500)]},
     "C12": {"quick": [("MC", "hier12", 3), ("MC", "hier12", 12, 60)],
             "thorough": [("MC", "hier12", 5), ("MC", "hier12", 14, 1000)]},
 })
 IR_RULE = {
+    "C08": "designs = reachable states of the build scope xf (two libraries, leaf / feed-through-capable mid / top with a "
+           "bus port; sharing at two depths; BFS + TLC -simulate); on each the pipeline uniquify; uniquify; flatten is run on "
+           "the real code; distinct_nontrivial counts distinct designs in which some non-leaf definition is shared",
+    "C09": "as C08; flatten is judged on the uniquified design; distinct_nontrivial counts distinct designs with at least "
+           "one hierarchical (non-leaf) instance below the top",
     "C11": "designs = reachable states of the build scope hier11 (valid construction steps in canonical order; BFS to the "
            "listed depth plus TLC -simulate behaviours for deep designs) and of hier_edit (the same plus destructive "
            "edits); per design every hierarchical query (5 functions x netlist / element / reference roots x recursive) "
@@ -223,4 +232,4 @@ def ir_history(pid, tier, seed, replay=None, runs=None, strict=True):
 
 
 HANDLERS = {"C01": ir_history, "C02": ir_history, "C14": ir_history, "C10": ir_history, "C19": ir_history, "C11": ir_history,
-            "C12": ir_history}
+            "C12": ir_history, "C08": ir_history, "C09": ir_history}
